@@ -10,11 +10,13 @@ EXPLANATION = (
     "result in src/writer/file_writer.c and src/reader/file_reader.c is consumed on every path "
     "(tested, returned, or stored and read before it dies); in carquet_writer_close every path that "
     "keeps the status OK after the trailing magic passes a checked fflush or fclose before the "
-    "function returns, and a failing fflush/fclose is folded into the returned status; (2) in each of "
-    "the three open paths (read_footer, read_footer_mmap, carquet_reader_open_buffer) the "
-    "minimum-size test, the trailing-magic comparison and the footer_size > file_size - 8 test, each "
-    "with an error exit, dominate the call of parquet_parse_file_metadata, and is_open is set only "
-    "after the parse status and build_schema result were tested; (3) carquet_writer_abort closes the "
+    "function returns, and a failing fflush/fclose is folded into the returned status; (2) each of "
+    "the three open paths (read_footer, read_footer_mmap, carquet_reader_open_buffer) is executed "
+    "abstractly over file sizes 0..16/20/100 x head/tail magic outcomes x footer lengths (byte compares and "
+    "the length read are hooked, contents unknown): the footer parser is reached only when the file has >= "
+    "12 bytes, the trailing magic matched and footer_size <= file_size - 8, then with exactly the "
+    "footer_size bytes before the tail; magic and length are read inside the file; every well-formed "
+    "envelope reaches the parser; build_schema runs only after the parse status was tested; (3) carquet_writer_abort closes the "
     "stream and then removes the path for path-based writers, and whether it removes depends only on "
     "{owns_file, file, path} (abort at any point leaves no file). Decides these clauses, not that every "
     "prefix of every file is rejected (that depends on byte values).")
